@@ -192,16 +192,8 @@ def optTruthy (o : Option Int) : Bool := match o with | some v => v != 0 | none 
 def listTruthy {α} (o : Option (List α)) : Bool := match o with | some l => !l.isEmpty | none => false
 def strTruthy (o : Option String) : Bool := match o with | some s => !s.isEmpty | none => false
 
-/-- First entry whose result is truthy (string side: `if buflen_bits: break`). -/
-def lookupTruthy (items : Items) : List DiscreteLookup → Except Err PyVal
-  | [] => .error .value
-  | d :: ds => do
-    let r ← d.evaluate items none
-    match r with
-    | some v => if truthy v then pure v else lookupTruthy items ds
-    | none => lookupTruthy items ds
-
-/-- First entry whose result is not `None` (binary side: `if len_bits is not None: break`). -/
+/-- First entry whose result is not `None` (`if len_bits is not None: break`; the string side used a truthiness test
+    that skipped a matching entry of value 0 until the `fix:` commit recorded in DESIGN.md §14). -/
 def lookupNotNone (items : Items) : List DiscreteLookup → Except Err PyVal
   | [] => .error .value
   | d :: ds => do
@@ -213,7 +205,7 @@ def lookupNotNone (items : Items) : List DiscreteLookup → Except Err PyVal
 /-- `StringDataEncoding._calculate_size` -/
 def StrEnc.calculateSize (e : StrEnc) (items : Items) : Except Err Int := do
   let v ← if optTruthy e.fixedLength then pure (PyVal.int (e.fixedLength.getD 0))
-    else if listTruthy e.lookup then lookupTruthy items (e.lookup.getD [])
+    else if listTruthy e.lookup then lookupNotNone items (e.lookup.getD [])
     else if strTruthy e.dynRef then do
       let v ← refValue items (e.dynRef.getD "") e.useCal
       match e.adjuster with
